@@ -239,6 +239,21 @@ def _bounded_renderings(tier, seed):
                     bad({'text': text, 'pretty_desc': pretty}, got2[:4], want[:4])
         if len(samples) < 3:
             samples.append({'text': gen.render(desc, 'TRS_desc')[:90], 'tracts': want[:3]})
+    # descriptions that return to an earlier Twp/Rge (A, B, A): reading order must survive the pretty_desc round trip
+    A, B = (154, 'n', 97, 'w'), (7, 's', 10, 'e')
+    for desc in ([(A, [([14], 'NE/4')]), (B, [([1], 'ALL')]), (A, [([15], 'W/2')])],
+                 [(A, [([3, 4], 'Lots 1 - 3, S/2NE/4')]), (B, [([(5, 7)], 'E½')]), (A, [([1], 'NE/4'), ([2], 'ALL')])]):
+        want = gen.expected_tracts(desc)
+        for layout in gen.LAYOUTS:
+            text = gen.render(desc, layout)
+            d = pytrs.PLSSDesc(text)
+            ev += 1
+            distinct.add(text)
+            got = [(t.trs, t.desc) for t in d.tracts]
+            d2 = pytrs.PLSSDesc(d.tracts.pretty_desc())
+            got2 = [(t.trs, ' '.join(t.desc.split())) for t in d2.tracts]
+            if got != want or got2 != [(a, ' '.join(b.split())) for a, b in want]:
+                bad({'text': text, 'pretty_desc': d.tracts.pretty_desc()}, [got[:4], got2[:4]], want[:4])
     # cleanup_desc: idempotent, and an infix of its argument (the idempotence used by the marker-walk abstraction)
     for blk in gen.BLOCKS:
         for pre in ('', ' ', ': ', ', ', '.\n', '- '):
